@@ -218,10 +218,15 @@ impl Resolver {
         // O_CREAT cannot be emulated by the O_PATH resolver (and in the
         // fallback case the flag gets silently ignored unless you also set
         // O_EXCL) so we need to explicitly return an error if it is provided.
-        if flags.intersects(OpenFlags::O_CREAT | OpenFlags::O_EXCL) {
+        // The same goes for O_TMPFILE, which openat2(2) would happily use to
+        // create a new (anonymous) file.
+        if flags.intersects(OpenFlags::O_CREAT | OpenFlags::O_EXCL)
+            || flags.contains(OpenFlags::O_TMPFILE)
+        {
             Err(ErrorImpl::InvalidArgument {
                 name: "oflags".into(),
-                description: "open flags to one-shot open cannot contain O_CREAT or O_EXCL".into(),
+                description:
+                    "open flags to one-shot open cannot contain O_CREAT, O_EXCL or O_TMPFILE".into(),
             })?
         }
 
